@@ -3,7 +3,7 @@
 import sys, json
 sys.path.insert(0, sys.argv[1])
 sys.path.insert(0, sys.argv[2])
-import codec, trxd_proto
+import codec, trxd_proto, data_msg
 from lib import codecdef as cd
 
 CLASSES = ["PDUv0Rx", "PDUv0Tx", "PDUv1Rx", "PDUv1Tx", "PDUv2Rx", "PDUv2Tx"]
@@ -22,4 +22,5 @@ for m in range(-2, 40):
         out["mts_burst_len"][str(m)] = trxd_proto.MTS.get_burst_len(m)
     except ValueError:
         out["mts_burst_len"][str(m)] = None
+out["msg_modulations"] = [[m.name, m.coding, m.bl] for m in data_msg.Modulation]
 print(json.dumps(out, default=enc))
